@@ -223,10 +223,48 @@ def h_forbidden(ctx):
     return Outcome(f"refused:{r.etype}" if not r.ok else "produced", vs, nontrivial=(d_alg, o_alg, order, n_other, enc))
 
 
+def h_def_limit(ctx):
+    """With DEF, plaintexts up to the decompression limit round-trip - also incompressible ones, whose compressed form is longer than the plaintext."""
+    import hashlib
+    scen.register_drafts()
+    alg, kind = ctx.choose("alg/key", [("dir", None), ("A128KW", "oct16"), ("ECDH-ES", "X25519")])
+    enc = ctx.choose("enc", ["A128GCM", "A128CBC-HS256"])
+    form = ctx.choose("form", FORMS)
+    cls = ctx.choose("class", ["random", "constant", "text"])
+    n = ctx.choose("length", [255000, 255920, 255999, 256000])
+    kind = kind or "oct%d" % ENC[enc][1]
+    if cls == "random":
+        pt = b"".join(hashlib.sha256(b"%d" % i).digest() for i in range(n // 32 + 1))[:n]
+    elif cls == "constant":
+        pt = b"\x00" * n
+    else:
+        pt = (b"The quick brown fox jumps over the lazy dog. " * (n // 45 + 1))[:n]
+    jwk = scen.key(kind)
+    algs = [alg, enc, "DEF"]
+    r = scen.jwe_encrypt(form, {"alg": alg, "enc": enc, "zip": "DEF"}, pt, A.jkey(jwk, "dict", private=(jwk["kty"] == "oct")), algs)
+    vs = []
+    ctxs = f"{alg} {enc} {form} zip=DEF plaintext {cls} of {n} octets"
+    if not r.ok:
+        vs.append(viol(f"encryption with DEF fails for a plaintext within the decompression limit ({cls})", f"{ctxs}: {r.exc!r}"))
+    else:
+        d = scen.jwe_decrypt(r.value, A.jkey(jwk, "dict"), algs)
+        if not d.ok:
+            vs.append(viol(f"own DEF output within the decompression limit does not decrypt ({cls} plaintext)", f"{ctxs}: {d.exc!r}"))
+        elif d.value[0] != pt:
+            vs.append(viol(f"DEF round trip changes a plaintext within the limit ({cls})", ctxs))
+        try:
+            if rjwe.decrypt(r.value, jwk)[0] != pt:
+                vs.append(viol("reference decrypts the DEF token to a different plaintext", ctxs))
+        except RefError as e:
+            vs.append(viol("independent implementation cannot decrypt joserfc's DEF token", f"{ctxs}: {e!r}"))
+    return Outcome(f"def:{cls}:{'ok' if not vs else 'bad'}", vs, nontrivial=(alg, enc, form, cls, n))
+
+
 _pf = Part("forbidden-mixes", h_forbidden, split_depth=2)
 _pf.single_bucket_ok = True
 PARTS = [
     Part("single-recipient", h_single, bound={"quick": 1, "thorough": 2}, split_depth=2, budget={"quick": 150, "thorough": 2400}),
     Part("multi-recipient", h_multi, bound={"quick": 1, "thorough": 2}, split_depth=2, budget={"quick": 120, "thorough": 1800}),
     _pf,
+    Part("def-up-to-the-limit", h_def_limit, split_depth=3),
 ]
